@@ -211,4 +211,115 @@ AcceptRef(s, o) ==
 BoolVal(b) == Val(<<IF b THEN 1 ELSE 0>>)
 RsdpV1Len == 20
 RsdpV2Max == 36
+\* ======================================================================================
+\* C18: EFI memory map
+\* ======================================================================================
+EfiDescSize == 40
+\* parameters of EFI memory-map item `it`: descriptor size d, version v, map length L
+EfiParams(mem, it) == [d |-> U32At(mem, it.at + 8), v |-> U32At(mem, it.at + 12), L |-> it.size - 16]
+EfiValid(p) == p.v = 1 /\ p.d >= EfiDescSize /\ p.d % 8 = 0 /\ p.L % p.d = 0
+EfiCount(p) == p.L \div p.d
+\* i-th descriptor (0-based): the 40 bytes at map offset i * d
+EfiItem(mem, it, p, i) ==
+  LET a == it.at + 16 + i * p.d IN
+  [at |-> a, al |-> 0, ty |-> Bytes(mem, a, 4), phys_start |-> Bytes(mem, a + 8, 8),
+   virt_start |-> Bytes(mem, a + 16, 8), page_count |-> Bytes(mem, a + 24, 8), att |-> Bytes(mem, a + 32, 8)]
+IsEfiItem(o, x) ==
+  /\ o.k = "some" /\ o.v.at = x.at /\ o.v.al = 0 /\ o.v.ty = x.ty /\ o.v.phys_start = x.phys_start
+  /\ o.v.virt_start = x.virt_start /\ o.v.page_count = x.page_count /\ o.v.att = x.att
+U64Bytes(n) == U32Bytes(n) \o <<0, 0, 0, 0>>
+\* k = items yielded so far
+AcceptEfiNext(mem, it, k, dead, o) ==
+  LET p == EfiParams(mem, it) IN
+  IF ~EfiValid(p) THEN o.k = "panic" \/ (dead /\ o.k = "none")       \* never an item
+  ELSE IF dead THEN o.k \in {"panic", "none"}
+  ELSE IF k < EfiCount(p) THEN IsEfiItem(o, EfiItem(mem, it, p, k))
+  ELSE o.k = "none"
+AcceptEfiLen(mem, it, k, dead, o) ==
+  LET p == EfiParams(mem, it) IN
+  IF ~EfiValid(p) THEN o.k = "panic"
+  ELSE dead \/ IsVal(o, U64Bytes(EfiCount(p) - k))
+\* size_hint is a bound, not "the remaining length it reports": any correct bound is accepted
+LE8Small(b) == IF b[5] = 0 /\ b[6] = 0 /\ b[7] = 0 /\ b[8] = 0 THEN LE4(SubSeq(b, 1, 4)) ELSE Far
+AcceptEfiHint(mem, it, k, dead, o) ==
+  LET p == EfiParams(mem, it) IN
+  IF ~EfiValid(p) THEN o.k \in {"panic", "hint"}
+  ELSE dead \/ (o.k = "hint" /\ LE8Small(o.lo) <= EfiCount(p) - k
+                /\ (o.hi.k = "none" \/ LE8Small(o.hi.v) >= EfiCount(p) - k))
+
+\* reference design: memory_areas() asserts the version; the iterator constructor asserts
+\* d >= 40, d % 8 = 0 and L % d = 0 and fixes entries = L / d; next() reads entry i at i * d
+DesignEfiNew(mem, it) ==
+  LET p == EfiParams(mem, it) IN
+  IF p.v # 1 THEN Panic
+  ELSE IF p.d < EfiDescSize \/ p.d % 8 # 0 THEN Panic
+  ELSE IF p.L % p.d # 0 THEN Panic
+  ELSE Ok([entries |-> p.L \div p.d, d |-> p.d])
+DesignEfiNext(mem, it, st) ==      \* st = [i, entries, d]
+  IF st.i >= st.entries THEN [o |-> None, st |-> st]
+  ELSE [o |-> Some(EfiItem(mem, it, [d |-> st.d], st.i)), st |-> [st EXCEPT !.i = st.i + 1]]
+
+\* ======================================================================================
+\* C19: ELF sections
+\* ======================================================================================
+ElfBase == 20
+ElfParams(mem, it) == [n |-> U32At(mem, it.at + 8), es |-> U32At(mem, it.at + 12),
+                       shndx |-> U32At(mem, it.at + 16), len |-> it.size - ElfBase]
+\* a * b <= len without leaving TLC's integers
+MulFits(a, b, len) == a = 0 \/ b = 0 \/ (a <= len /\ b <= len /\ a * b <= len)
+ElfFits(p) == MulFits(p.n, p.es, p.len) /\ (p.n = 0 \/ (p.shndx < Far /\ MulFits(p.shndx + 1, p.es, p.len)))
+\* raw section type (4 bytes LE) is one of the recognised in-use types
+ElfInUse(b) == (b[4] = 0 /\ b[3] = 0 /\ b[2] = 0 /\ b[1] >= 1 /\ b[1] <= 11) \/ (b[4] >= 96 /\ b[4] <= 127)
+ElfTypeDisc(b) == IF b[4] >= 96 /\ b[4] <= 111 THEN <<0, 0, 0, 96>>
+                  ELSE IF b[4] >= 112 /\ b[4] <= 127 THEN <<0, 0, 0, 112>> ELSE b
+\* decoded entry i (0-based) by the layout the entry size selects
+ElfEntry(mem, it, p, i) ==
+  LET a == it.at + ElfBase + i * p.es
+      raw == Bytes(mem, a + 4, 4)
+      fl == IF p.es = 40 THEN ZExt(Bytes(mem, a + 8, 4), 8) ELSE Bytes(mem, a + 8, 8) IN
+  [raw |-> raw, typ |-> ElfTypeDisc(raw),
+   flags |-> <<fl[1] % 8, 0, 0, 0, 0, 0, 0, 0>>,          \* from_bits_truncate: WRITABLE | ALLOCATED | EXECUTABLE
+   addr |-> IF p.es = 40 THEN ZExt(Bytes(mem, a + 12, 4), 8) ELSE Bytes(mem, a + 16, 8),
+   size |-> IF p.es = 40 THEN ZExt(Bytes(mem, a + 20, 4), 8) ELSE Bytes(mem, a + 32, 8),
+   addralign |-> IF p.es = 40 THEN ZExt(Bytes(mem, a + 32, 4), 8) ELSE Bytes(mem, a + 48, 8),
+   alloc |-> (fl[1] \div 2) % 2,
+   name_index |-> U32At(mem, a)]
+ElfStrAddr(mem, it, p) ==        \* the address field of the string-table entry
+  LET a == it.at + ElfBase + p.shndx * p.es IN
+  IF p.es = 40 THEN ZExt(Bytes(mem, a + 12, 4), 8) ELSE Bytes(mem, a + 16, 8)
+ElfItems(mem, it, p) ==
+  SelectSeq([i \in 1..p.n |-> ElfEntry(mem, it, p, i - 1)], LAMBDA e : ElfInUse(e.raw))
+IsElfItem(o, e) ==
+  /\ o.k = "some" /\ o.v.raw = e.raw /\ o.v.typ = e.typ /\ o.v.flags = e.flags /\ o.v.addr = e.addr
+  /\ o.v.size = e.size /\ o.v.addralign = e.addralign /\ o.v.alloc = e.alloc
+\* name: the NUL-terminated string at ext.data[name_index ..]
+ElfNameSpec(ext, e) ==
+  IF e.name_index >= Len(ext.data) THEN [k |-> "free"]
+  ELSE LET tail == SubSeq(ext.data, e.name_index + 1, Len(ext.data))  z == FirstNul(tail) IN
+       IF z = 0 THEN [k |-> "free"]
+       ELSE IF Utf8Valid(SubSeq(tail, 1, z - 1)) THEN Ok([eat |-> e.name_index, len |-> z - 1]) ELSE Err("Utf8")
+AcceptElfNext(mem, it, ext, k, dead, o) ==
+  LET p == ElfParams(mem, it) IN
+  IF ~ElfFits(p) THEN o.k = "panic" \/ (dead /\ o.k = "none")            \* rejected, never read
+  ELSE IF p.es \notin {40, 64} THEN o.k \in {"panic", "none", "some"}    \* free apart from C01
+  ELSE IF dead THEN o.k \in {"panic", "none"}
+  ELSE LET xs == ElfItems(mem, it, p) IN
+       IF k < Len(xs) THEN
+          /\ IsElfItem(o, xs[k + 1])
+          /\ (Has(o.v, "name") /\ ext.k = "ext" /\ ElfStrAddr(mem, it, p) = ext.addr) =>
+               LET ns == ElfNameSpec(ext, xs[k + 1]) IN
+               CASE ns.k = "free" -> TRUE
+                 [] ns.k = "err" -> o.v.name.k = "err"
+                 [] OTHER -> o.v.name.k = "ok" /\ o.v.name.v.eat = ns.v.eat /\ o.v.name.v.len = ns.v.len
+       ELSE o.k = "none"
+\* reference design: sections() asserts both bounds; next() walks entry by entry, skipping unused ones
+DesignElfNew(mem, it) ==
+  LET p == ElfParams(mem, it) IN IF ElfFits(p) THEN Ok(p) ELSE Panic
+RECURSIVE DesignElfNext(_, _, _, _)
+DesignElfNext(mem, it, p, st) ==     \* st = [i] : next entry index
+  IF st.i >= p.n THEN [o |-> None, st |-> st]
+  ELSE IF p.es \notin {40, 64} THEN [o |-> Panic, st |-> [i |-> st.i + 1]]     \* "Unexpected entry size"
+  ELSE LET e == ElfEntry(mem, it, p, st.i) IN
+       IF ElfInUse(e.raw) THEN [o |-> Some(e), st |-> [i |-> st.i + 1]]
+       ELSE DesignElfNext(mem, it, p, [i |-> st.i + 1])
 =============================================================================
